@@ -67,6 +67,27 @@ func TestC08Huge(t *testing.T) {
 	})
 }
 
+// TestC05Huge: ONCE / POLL answers of 9000-70000 leaves to a reader slower than the walk (part "huge").
+func TestC05Huge(t *testing.T) {
+	if !vstat.Enabled("C05") {
+		t.Skip()
+	}
+	rec := vstat.New("C05", "huge")
+	rec.RunRapid(t, func(rt *rapid.T) {
+		sc := genHugeOnceScenario(rt)
+		rec.Current(sc)
+		st, err := run(t, sc, "C05")
+		rec.Case(sc, true, append(st.labels(), "answer-of-9000-or-more-leaves-to-a-slow-reader")...)
+		if err != nil {
+			class := "oracle"
+			if f, ok := err.(*failure); ok && f.prop == "PANIC" {
+				class = "panic"
+			}
+			rt.Fatalf("%s", rec.Fail(sc, class, "%v", err))
+		}
+	})
+}
+
 // TestC07Huge: an all-targets subscriber denied a target of 10000-70000 leaves (part "huge"; each case costs seconds).
 func TestC07Huge(t *testing.T) {
 	if !vstat.Enabled("C07") {
